@@ -326,7 +326,10 @@ def _split_partition(df, on, nsplits):
     # add a "_partitions" column to perform the split.
     from dask.dataframe.dask_expr._collection import FrameBase
 
-    if not isinstance(on, FrameBase):
+    if on is None:
+        # joining on the index of this operand
+        on = df.index.to_frame(name="_index")
+    elif not isinstance(on, FrameBase):
         on = _select_columns_or_index(df, on)
 
     dtypes = {}
